@@ -136,6 +136,14 @@ def rand_op(rng, n, names, grid=False):
     return [g, loc, [rand_param(rng, grid) for _ in range(NPAR.get(g, 0))]]
 
 
+def rand_mpr(rng, n, k=None, target=None):
+    """a multiplexed rotation on a random (permuted, possibly non-adjacent) location, any target position"""
+    k = k or rng.randint(2, min(n, 4))
+    loc = rng.sample(range(n), k)
+    t = rng.randrange(k) if target is None else target
+    return [rng.choice(['MPRY', 'MPRZ']), loc, dict(target=t, angles=[rand_param(rng) for _ in range(2 ** (k - 1))])]
+
+
 def rand_circ(rng, n, m, names=None, grid=False):
     names = names or (G1C + G1P + (G2C + G2P if n >= 2 else []))
     names = [g for g in names if WIDTH[g] <= n]
@@ -152,6 +160,9 @@ def build(desc):
         if name == 'BLOCK':
             sub = build(params)
             c.append_gate(S['G'].CircuitGate(sub), loc, sub.params)
+        elif name in ('MPRY', 'MPRZ'):
+            g = (S['G'].MPRYGate if name == 'MPRY' else S['G'].MPRZGate)(len(loc), params['target'])
+            c.append_gate(g, loc, params['angles'])
         elif name in ('VU', 'CU'):
             k = len(loc)
             r = [rad[q] for q in loc]
@@ -199,6 +210,8 @@ def opkey(op):
     S = _setup()
     g = op.gate
     name = S['NAME'].get(type(g)) or type(g).__name__
+    if isinstance(g, (S['G'].MPRYGate, S['G'].MPRZGate)):
+        name = '%s_%d_t%d' % (type(g).__name__, g.num_qudits, g.target_qubit)
     if isinstance(g, S['G'].CircuitGate):
         name = 'BLOCK'
     return (name, tuple(op.location), tuple(round(float(p), 9) for p in op.params) if name != 'BLOCK' else ())
@@ -821,6 +834,44 @@ def run_analytic(case):
     return r.out()
 
 
+def run_mgd(case):
+    """MGDPass driven directly on circuits holding multiplexed rotations with EVERY target position (first, middle,
+    last), widths 2..4, permuted / non-adjacent locations, generic and special angles, between other gates"""
+    S = _setup()
+    G = S['G']
+    r = Rep(case)
+    name = 'MGDPass'
+    c0 = build(case['circ'])
+    c1 = c0.copy()
+    twice = case['opts']['twice']
+    u0 = U(c0)
+    mp = (G.MPRYGate, G.MPRZGate)
+    sig = dict(decompose_twice=twice)
+    r.info['targets'] = str(sorted({(op.num_qudits, op.gate.target_qubit) for op in c0 if isinstance(op.gate, mp)}))
+    for rnd in range(5):
+        w0 = [op.num_qudits for op in c1 if isinstance(op.gate, mp)]
+        if not w0:
+            break
+        run_pass(S['P'].MGDPass(twice), c1)
+        d = dmax(u0, U(c1))
+        if not d <= EXACT:
+            r.bad(dict({'pass': name, 'symptom': 'unitary_changed'}, **sig), 'max|U_out - U_in| <= 1e-9', d,
+                  f"{name}: decomposing a multiplexed rotation changed the unitary (round {rnd + 1}; (width, target) present: {r.info['targets']})")
+            return r.out()
+        w1 = [op.num_qudits for op in c1 if isinstance(op.gate, mp)]
+        lvl = 2 if twice else 1
+        if w1 and max(w1) > max(1, max(w0) - lvl) and max(w0) > 2:
+            r.bad(dict({'pass': name, 'symptom': 'post'}, **sig), f'multiplexed gates of width <= {max(w0) - lvl}', w1, f'{name}: multiplexed gates were not decomposed')
+            break
+    left = [opkey(op)[0] for op in c1 if isinstance(op.gate, mp)]
+    if left:
+        r.bad(dict({'pass': name, 'symptom': 'post'}, **sig), 'no multiplexed rotation left after 5 rounds', left, f'{name}: multiplexed rotations remain')
+    extra = set(counts(c1)) - set(counts(c0)) - {'CX', 'RY', 'RZ'}
+    if extra:
+        r.bad(dict({'pass': name, 'symptom': 'unadvertised_gate'}, **sig), ['CX', 'RY', 'RZ'], sorted(extra), f'{name}: introduces other gates')
+    return r.out()
+
+
 def run_walsh(case):
     S = _setup()
     r = Rep(case)
@@ -889,6 +940,16 @@ def run_synth(case):
 
 
 # ---- structural / utility passes ---------------------------------------------------------------------------
+def positional(rng, n):
+    """an operation whose meaning depends on the ORDER of its location: multiplexed rotation with any target, Toffoli,
+    controlled gates with either orientation"""
+    if n >= 3 and rng.random() < 0.3:
+        return ['CCX', rng.sample(range(n), 3), []]
+    if n >= 2 and rng.random() < 0.6:
+        return rand_mpr(rng, n)
+    return rand_op(rng, n, [g for g in ['CH', 'CY', 'CRZ', 'CS', 'CX'] if n >= 2] or ['H'])
+
+
 def gen_block_circ(rng, nmax=5, depth=2):
     """circuits with (nested) CircuitGate blocks"""
     n = rng.randint(1, nmax)
@@ -907,6 +968,8 @@ def gen_block_circ(rng, nmax=5, depth=2):
         if rng.random() < 0.5:
             kk = rng.randint(1, min(n, 3))
             ops.append(['BLOCK', rng.sample(range(n), kk), sub(kk, depth - 1)])
+        elif n >= 2 and rng.random() < 0.25:
+            ops.append(positional(rng, n))
         else:
             ops.append(rand_op(rng, n, [g for g in G1C + G1P + G2C + G2P if WIDTH[g] <= n]))
     return dict(n=n, ops=ops)
@@ -965,6 +1028,8 @@ def run_util(case):
                 if nm == 'BLOCK':
                     out.append('[B [%s] %s]' % (' '.join(map(str, loc)), tree(params)))
                 else:
+                    if nm in ('MPRY', 'MPRZ'):
+                        nm, params = '%sGate_%d_t%d' % (nm, len(loc), params['target']), params['angles']
                     keys.append([nm, [round(float(p), 9) for p in params]])
                     out.append('[L %d [%s]]' % (len(keys) - 1, ' '.join(map(str, loc))))
             return '[' + ' '.join(out) + ']'
@@ -1393,7 +1458,7 @@ def run_rebase_cosim(case):
 RUNNERS = {
     'rule': run_rule, 'u3dec': run_u3dec, 'zxzxz': run_zxzxz, 'gsq': run_gsq, 'rebase': run_rebase,
     'removal': run_removal, 'subst': run_subst, 'extract_diag': run_extract_diag, 'analytic': run_analytic,
-    'walsh': run_walsh, 'synth': run_synth, 'util': run_util, 'cosim': run_cosim, 'rebase_cosim': run_rebase_cosim,
+    'walsh': run_walsh, 'synth': run_synth, 'util': run_util, 'cosim': run_cosim, 'rebase_cosim': run_rebase_cosim, 'mgd': run_mgd,
 }
 
 
@@ -1437,7 +1502,7 @@ CATALOGUE = {
     'ScanningGateRemovalPass': SKEL, 'TreeScanningGateRemovalPass': SKEL,
     'ExhaustiveGateRemovalPass': SKEL, 'IterativeScanningGateRemovalPass': SKEL,
     'SubstitutePass': SKEL, 'ExtractDiagonalPass': TESTED,
-    'QSDPass': SKEL, 'MGDPass': TESTED, 'FullQSDPass': TESTED,
+    'QSDPass': SKEL, 'MGDPass': SKEL, 'FullQSDPass': TESTED,
     'BlockZXZPass': SKEL, 'FullBlockZXZPass': TESTED,
     'WalshDiagonalSynthesisPass': TESTED, 'QFASTDecompositionPass': TESTED,
     'QPredictDecompositionPass': TESTED, 'PermutationAwareSynthesisPass': TESTED,
@@ -1455,6 +1520,7 @@ THEOREMS_OF = {
     'SubstitutePass': 'C10_substitute_invariant; decision skeleton only (replace_gate is an oracle), no co-simulation',
     'Rebase2QuditGatePass': 'C10_rebase_post; co-simulated', 'AutoRebase2QuditGatePass': 'C10_rebase_post; co-simulated',
     'ZXZXZDecomposition': 'C10_zxzxz_form (all angles); parameter extraction (det, phase, arctan2) is the oracle; gate sequence read by the translator',
+    'MGDPass': 'C10_mgd_location (any target position) C10_mgd_rotation_only_at_the_ends C10_multiplexor_branches; angle halving and recursion are oracles; driven directly with every (width, target) arrangement',
     'QSDPass': 'C10_qsd_demultiplex C10_qsd_recombine; qubit shifts and multiplexor angle encodings not modelled',
     'BlockZXZPass': 'C10_qsd_demultiplex (same demultiplexing step); A/B/C construction not modelled',
     'UnfoldPass': 'C10_unfold_*; list model tied by correspondence', 'CompressPass': 'C10_compress_order; list model tied by correspondence',
@@ -1560,6 +1626,20 @@ def gen_tasks(ctx, rng, scale=1.0, only=None):
             if o.get('scan') and rng.random() < 0.8:
                 circ['ops'] = [op for op in circ['ops'] if op[0] == 'VU']
             add('analytic', dict(p=name, circ=circ, opts=o), 120)
+    # MGDPass on its own: every (width, target position), both levels, permuted locations, with neighbours
+    combos = [(k, t) for k in (2, 3, 4) for t in range(k)]
+    for rep in range(n(3, 20)):
+        for k, t in combos:
+            nn = rng.randint(k, 5)
+            ops = []
+            for _ in range(rng.randint(0, 2)):
+                ops.append(rand_op(rng, nn, [g for g in ['H', 'CX', 'U3', 'T', 'CZ'] if WIDTH[g] <= nn]))
+            ops.append(rand_mpr(rng, nn, k, t))
+            if rng.random() < 0.4:
+                ops.append(rand_mpr(rng, nn))
+            for _ in range(rng.randint(0, 2)):
+                ops.append(rand_op(rng, nn, [g for g in ['H', 'CX', 'U3', 'S'] if WIDTH[g] <= nn]))
+            add('mgd', dict(p='MGDPass', circ=dict(n=nn, ops=ops), opts=dict(twice=rng.random() < 0.5)))
     for _ in range(n(16, 200)):
         add('walsh', dict(p='WalshDiagonalSynthesisPass', n=rng.randint(1, 4 if not th else 5), seed=rng.randint(0, 10**6),
                           bad='qutrit' if rng.random() < 0.08 else None))
@@ -2117,4 +2197,4 @@ def fam_of(case):
             'IterativeScanningGateRemovalPass': 'removal', 'SubstitutePass': 'subst', 'ExtractDiagonalPass': 'extract_diag',
             'QSDPass': 'analytic', 'MGDPass': 'analytic', 'FullQSDPass': 'analytic', 'BlockZXZPass': 'analytic',
             'FullBlockZXZPass': 'analytic', 'WalshDiagonalSynthesisPass': 'walsh', 'QFASTDecompositionPass': 'synth',
-            'QPredictDecompositionPass': 'synth', 'PermutationAwareSynthesisPass': 'synth'}.get(p, 'util')
+            'QPredictDecompositionPass': 'synth', 'PermutationAwareSynthesisPass': 'synth'}.get(p, 'util') if not (p == 'MGDPass' and 'twice' in case.get('opts', {}) and 'mq' not in case.get('opts', {})) else 'mgd'
